@@ -17,7 +17,7 @@ TRUSTED = ['harness/gen_tables.py (tables regenerated from the working tree)',
 ASSUMPTIONS = ['CPython str semantics', 'the model driver is the compiled form of the verified definitions']
 LEAN_TARGETS = LEAN_TARGETS + ['TexSoupProofs.Properties.TableSpec']
 # entries of the generated tables that the property's statement names (they stop compiling when a table edit drops them)
-THEOREMS = THEOREMS + ['TexSoup.TableSpec.' + n for n in ['spacer_chars']]
+THEOREMS = THEOREMS + ['TexSoup.TableSpec.' + n for n in ['spacer_chars', 'mandatory_argument_commands']]
 
 ALPHA = [a for a in gen.TOKEN_ALPHA if '\x00' not in a and '\x7f' not in a] + ['~', '&', '#', '^', '_', '\t', '\r', 'é', '*', '|', '.']
 
@@ -40,7 +40,7 @@ def check_one(s, skip=()):
     line, soup, exc = common.impl_parse(s, 0, skip)
     if soup is None:
         return None                      # does not parse in strict mode: out of scope
-    if oracles.has_bare_args(soup) or oracles.hidden_bare(s) or oracles.name_not_in_source(s, soup):
+    if oracles.excused_bare_args(soup) or oracles.hidden_bare(s) or oracles.name_not_in_source(s, soup):
         return None                      # side condition on fixed-signature commands
     out = str(soup)
     if oracles.aligned(s, out):
@@ -66,6 +66,7 @@ def inputs(ctx, scale):
     strs += list(gen.exhaustive(parsecorr.CORE_ALPHA, ctx.pick(4, 5), 4))
     strs += list(gen.random_strings(rg, parsecorr.ENV_ALPHA, ctx.pick(4000, 60000) * scale, 4, 9))
     strs += gen.padded_env_docs()
+    strs += gen.signature_probe_docs() + gen.escape_docs() + gen.codepoint_docs(rg, False, 500)
     docs = gen.corpus()
     strs += docs
     for d in docs[:40]:
@@ -92,7 +93,7 @@ def oracle(ctx, seeds, scale):
         if x != 'ok':
             r.fail(x[0], x[1], input=s)
     r.sample({'input': '\\x {a}', 'output': '\\x{a}', 'verdict': 'aligned (spacer before opener removed)'})
-    r.rule = ('for every string that parses strictly, has no NUL/DEL and no made-up argument: str(TexSoup(s)) must equal s '
+    r.rule = ('for every string that parses strictly, has no NUL/DEL and no made-up argument of \\def/\\textbf/\\section/\\label (a made-up argument of any other command is not excused): str(TexSoup(s)) must equal s '
               'up to deletion of whitespace directly before { or [ (DFS alignment); inputs: exhaustive short strings and '
               'random strings over the token-kind alphabet, repository documents and their mutants, generated documents and '
               'their mutants; non-trivial = in scope and longer than two characters')
